@@ -71,6 +71,20 @@ def run_sched(c):
     return out
 
 
+def run_periodat(c):
+    """RunPeriod.__call__ with target.now set to arbitrary timestamps, on or off the data index"""
+    tgt = Target(c["dates"])
+    algo = make_algo(c["algo"])
+    out = []
+    for z in c["stamps"]:
+        tgt.now = ts(z)
+        try:
+            out.append(pb(algo(tgt)))
+        except Exception as e:  # noqa: BLE001
+            out.append(classify(e))
+    return out
+
+
 def run_stack(c):
     log = []
     s = bt.Strategy("s", [make(a, log) for a in c["algos"]])
@@ -101,6 +115,8 @@ def main():
         out["sched"] = [run_sched(c) for c in req["sched"]]
     if "stack" in req:
         out["stack"] = [run_stack(c) for c in req["stack"]]
+    if "periodat" in req:
+        out["periodat"] = [run_periodat(c) for c in req["periodat"]]
     if "cal" in req:
         idx = pd.DatetimeIndex(pd.to_datetime(req["cal"], unit="s"))
         iso = idx.isocalendar()
